@@ -21,6 +21,10 @@ AgViol(r) ==
                (IF r.timed THEN FLess(r.perfs[i + 1][1], r.perfs[i][1]) ELSE FLess(r.perfs[i][1], r.perfs[i + 1][1]))
           THEN {} ELSE {"better_performance_does_not_grade_higher"})
     \cup (IF r.f # One \/ r.atbest = One THEN {} ELSE {"open_best_at_factor_one_does_not_grade_one"})
+    \* the open best of a tabulated event and the factor at a tabulated age are the published table's (tb / tf: read from the
+    \* data file by the harness; <<-1,0,0>> = not applicable)
+    \cup (IF "tb" \notin DOMAIN r \/ Raised(r.tb) \/ r.b = r.tb THEN {} ELSE {"open_best_differs_from_table"})
+    \cup (IF "tf" \notin DOMAIN r \/ Raised(r.tf) \/ r.f = r.tf THEN {} ELSE {"factor_at_tabulated_age_differs_from_table"})
     \* ages past the last column use the last column: the very same factor (flast = factor at the last column)
     \cup (IF "past" \in DOMAIN r /\ r.past /\ r.f # r.flast THEN {"age_past_last_column_does_not_use_last_column"} ELSE {})
 SpViol(r) == IF \A i \in DOMAIN r.vs : r.vs[i] = r.vs[1] /\ \A j \in 1..3 : ~Raised(r.vs[i][j])
